@@ -18,7 +18,6 @@ NOT_APPLICABLE = {
     "C05": "check not built yet in this session (planned, DESIGN.md section 3)",
     "C07": "check not built yet in this session (planned, DESIGN.md section 3)",
     "C11": "check not built yet in this session (planned, DESIGN.md section 3)",
-    "C17": "check not built yet in this session (planned, DESIGN.md section 3)",
 }
 
 NOTES = ("All checks share one pipeline (./check <id>): rsync /repo's working tree to a scratch dir, instrument with simgo, "
@@ -101,5 +100,11 @@ CHECK_META = {
         design_ref="DESIGN.md section 3, C25",
         text="exploration: seeded log and program-directory histories; every self-monitoring counter compared with the harness's own event count after every action",
         note="sampling; newline-terminated lines only; accessor file for the server's runtime added in the scratch copy",
+    ),
+    "C17": dict(
+        technique="deterministic simulation: real socket and datagram streams over an in-memory transport under the seeded scheduler, seeded write chunking, short reads and cancellation points; per-connection framing model",
+        design_ref="DESIGN.md section 3, C17",
+        text="exploration: seeded interleavings of 1-4 writers, accept loop, per-connection readers, the closer and the deadline setter, with cancellation at arbitrary steps",
+        note="covers unix/tcp stream sockets and unixgram/udp datagram sockets through a stub transport; named pipes and stdin are not covered (stated in evidence)",
     ),
 }
